@@ -117,6 +117,26 @@ def variant_helper_by_cases(F, h):
     return True, "%s(it.value()) evaluated for %d scalar values (int / uint / qlonglong / qulonglong at 0, +-1, +-42, +-2^53, the 32-bit limits; double, bool, text): each is converted as QJsonValue::fromVariant converts it" % (nm, len(cases))
 
 
+
+def mode_field(F):
+    """(qualified name of the member that carries the serialisation mode, its value for compact = true, its value for compact = false): the member the
+    JsonFormatter(bool) constructor initialises from its parameter - the flag itself, or the QJsonDocument::JsonFormat chosen from it (evaluated by cases)"""
+    from engine.conc import Conc, Unknown
+    for ct in F.fn_all(JF + "::JsonFormatter"):
+        if ct.d.get("kind") == "ctor" and not ct.d.get("copyctor") and not ct.d.get("movector") and ct.params:
+            pd = ct.params[0]["decl"]
+            for i in ct.inits:
+                if i.get("member") and isinstance(i.get("e"), dict) and any(x.get("k") == "ref" and x.get("decl") == pd for x in walk(i["e"])):
+                    vals = []
+                    for v in (1, 0):
+                        try:
+                            vals.append(Conc(F).eval(i["e"], {"__fn__": ct, pd: v}))
+                        except Unknown:
+                            vals.append(None)
+                    return strip_tmpl(i["member"]), vals[0], vals[1], ct, i
+    return None, None, None, None, None
+
+
 def run(ck):
     F = ck.facts
     attribute_setter(ck)
@@ -192,8 +212,20 @@ def run(ck):
         ck.ob("C13-O5", sitestr(fn, ins_[0] if ins_ else None), okf, "the member object is emptied on every path before anything is inserted" if okf else
               "the serialised object %s outlives the call and is not emptied on every path: members of an earlier message (an attribute this message does not have) stay in the record" % describe(objnode),
               key="JsonFormatter::format|fresh-object")
-    isc = lambda n: is_this_field(n, JF + "::m_compact")
+    MF_, vT_, vF_, _, _ = mode_field(F)
+    MF_ = MF_ or (JF + "::m_compact")
+    enum_mode = (vT_, vF_) == (1, 0) and not any("bool" in (f_.get("type") or "") for f_ in F.record(JF)["fields"] if JF + "::" + f_["name"] == MF_)
+    isc = lambda n: is_this_field(n, MF_) and not enum_mode
     for val, want, wname in ((True, 1, "Compact"), (False, 0, "Indented")):
+        if enum_mode:
+            # the member IS the mode (QJsonDocument::JsonFormat chosen in the constructor): every return hands it to toJson() as it is
+            for r, (tj, d) in shaped:
+                mode = tj["args"][0] if tj.get("args") else None
+                okm_ = isinstance(mode, dict) and is_this_field(skip_copies(deref_local(fn, mode)), MF_)
+                got_ = (vT_ if val else vF_) if okm_ else None
+                ck.ob("C13-O3", sitestr(fn, tj), (got_ == want) if got_ is not None else None, "compact=%s -> QJsonDocument::%s (the constructor stores the format itself)" % (val, wname) if got_ == want else
+                      "compact=%s -> mode %s" % (val, describe(mode)), key="JsonFormatter::format|mode-%s" % val)
+            continue
         keepv = g.projector(atom_eq(isc, val))
         livev = g.live(keepv)
         for r, (tj, d) in shaped:
@@ -212,9 +244,9 @@ def run(ck):
                   "compact=%s -> mode %s" % (val, describe(leafm)), key="JsonFormatter::format|mode-%s" % val)
     for ct in F.fn_all(JF + "::JsonFormatter"):
         if ct.d.get("kind") == "ctor" and not ct.d.get("copyctor") and not ct.d.get("movector") and ct.params:
-            i = [x for x in ct.inits if x.get("member") == JF + "::m_compact"]
-            ok = bool(i) and is_ref_to(i[0]["e"], ct.params[0]["decl"])
-            ck.ob("C13-O3", sitestr(ct), ok, "m_compact(compact)", key="JsonFormatter|ctor")
+            i = [x for x in ct.inits if strip_tmpl(x.get("member") or "") == MF_]
+            ok = bool(i) and (is_ref_to(i[0]["e"], ct.params[0]["decl"]) or (vT_, vF_) == (1, 0))
+            ck.ob("C13-O3", sitestr(ct), ok, "%s(compact%s)" % (MF_.split("::")[-1], "" if not enum_mode else " ? Compact : Indented"), key="JsonFormatter|ctor")
     # --- O1 loop
     loops = find_loops(fn)
     ck.require(len(loops) == 1, "JsonFormatter::format has %d loops" % len(loops))
@@ -366,7 +398,8 @@ def mode_reaches_formatter(ck):
     F = ck.facts
     ck.rule("C13-O4", "the requested mode reaches the formatter: JsonFormatter(compact) stores its argument in m_compact, which nothing else writes; "
                       "SimplePipeline::formatToJson(compact) appends a formatter constructed from its own argument (not a shared instance whose mode was fixed by the first caller)")
-    MC = JF + "::m_compact"
+    MC, vT_, vF_, _, _ = mode_field(F)
+    MC = MC or (JF + "::m_compact")
     ctors = [f for f in F.fn_all(JF + "::JsonFormatter") if f.d.get("kind") == "ctor" and not f.d.get("copyctor") and not f.d.get("movector") and f.params]
     ck.require(len(ctors) == 1, "JsonFormatter(bool) constructor not found")
     ct = ctors[0]
@@ -374,10 +407,11 @@ def mode_reaches_formatter(ck):
     ws = field_writes(F, MC)
     init = [w for w in ws if w[0].id == ct.id and w[2] == "ctor-init"]
     other = [w for w in ws if w not in init]
-    oki = len(init) == 1 and any(isinstance(i.get("e"), dict) and is_ref_to(i["e"], ct.params[0]["decl"]) for i in ct.inits if (i.get("member") or i.get("field") or "").endswith("m_compact"))
-    ck.ob("C13-O4", sitestr(ct), oki, "m_compact is initialised from the constructor argument" if oki else "m_compact is not initialised from the constructor argument", key="JsonFormatter|mode-init")
+    mshort = MC.split("::")[-1]
+    oki = len(init) == 1 and (vT_, vF_) == (1, 0)
+    ck.ob("C13-O4", sitestr(ct), oki, "%s is initialised from the constructor argument (true -> compact, false -> indented)" % mshort if oki else "%s is not initialised from the constructor argument" % mshort, key="JsonFormatter|mode-init")
     for wf, wn, how in other:
-        ck.ob("C13-O4", sitestr(wf, wn), False, "m_compact is also written in %s (%s)" % (wf.name.split("::")[-1], how), key="JsonFormatter::m_compact|writer|%s" % wf.name.split("::")[-1])
+        ck.ob("C13-O4", sitestr(wf, wn), False, "%s is also written in %s (%s)" % (mshort, wf.name.split("::")[-1], how), key="JsonFormatter::m_compact|writer|%s" % wf.name.split("::")[-1])
     ft = F.fn("QtLogger::SimplePipeline::formatToJson", flat=False)
     ck.touch(ft)
     pdecl = ft.params[0]["decl"]
